@@ -67,7 +67,7 @@ def r61(ctx, rep):
                                  'the %s table is not squared up with stack() before the merge: short rows raise or are '
                                  'compared with a shifted key' % side, stores[0] if stores else init.node)
     for o in sub.obligations:
-        rep.add('R6.1', (o.module, o.qualname), o.construct, o.status, o.message, None, o.detail)
+        rep.add('R6.1', (o.module, o.qualname), o.construct, o.status, o.message, o.lineno, o.detail)
 
 
 # ------------------------------------------------------------------------- R6.2
@@ -268,7 +268,7 @@ def r64_65(ctx, rep):
     c07.r71(ctx, sub, fns)
     for o in sub.obligations:
         if o.module == 'petl.transform.joins':
-            rep.add('R6.4', (o.module, o.qualname), o.construct, o.status, o.message, None, o.detail)
+            rep.add('R6.4', (o.module, o.qualname), o.construct, o.status, o.message, o.lineno, o.detail)
     # R6.5: C04 R4.3 + C20 on the merge loops
     sub4 = Report('C04', ctx.tier, ctx.root)
     saved = ctx.report
@@ -280,7 +280,7 @@ def r64_65(ctx, rep):
     names = set(fq.split(':')[1] for fq in MERGE_ITERS)
     for o in sub4.obligations:
         if o.module == 'petl.transform.joins' and o.qualname.split('.')[0] in names:
-            rep.add('R6.5', (o.module, o.qualname), o.construct, o.status, o.message, None, o.detail)
+            rep.add('R6.5', (o.module, o.qualname), o.construct, o.status, o.message, o.lineno, o.detail)
     sub20 = Report('C20', ctx.tier, ctx.root)
 
     class _Ctx(object):
@@ -297,6 +297,6 @@ def r64_65(ctx, rep):
         if o.module == 'petl.transform.joins' and o.qualname.split('.')[0] in names and \
                 o.rule in ('R20.1', 'R20.2', 'R20.4', 'R20.5'):
             n += 1
-            rep.add('R6.5', (o.module, o.qualname), '%s: %s' % (o.rule, o.construct), o.status, o.message, None, o.detail)
+            rep.add('R6.5', (o.module, o.qualname), '%s: %s' % (o.rule, o.construct), o.status, o.message, o.lineno, o.detail)
     if n < 6:
         raise AnalysisError('anchor vanished: only %d exhausted-side obligations found in the merge joins' % n)
